@@ -10,10 +10,18 @@ from gym_gridverse.spaces import ObservationSpace, StateSpace
 
 from .desc import FLOOR, HIDDEN, NONE
 
-TYPES = {'Hidden': Hidden, 'NoneGridObject': NoneGridObject, 'Floor': Floor, 'Wall': Wall, 'Exit': Exit, 'Door': Door, 'Key': Key, 'MovingObstacle': MovingObstacle,
+class VerifSubKey(Key):
+    """a user-defined registered type derived from a registered type (module level: picklable)"""
+
+
+from .desc import EXTRA_TYPES  # noqa: E402
+
+EXTRA_TYPES['VerifSubKey'] = VerifSubKey
+
+TYPES = {'VerifSubKey': VerifSubKey, 'Hidden': Hidden, 'NoneGridObject': NoneGridObject, 'Floor': Floor, 'Wall': Wall, 'Exit': Exit, 'Door': Door, 'Key': Key, 'MovingObstacle': MovingObstacle,
          'Box': Box, 'Telepod': Telepod, 'Beacon': Beacon}
-TYPE_ORDER = [t for t in TYPES if t not in ('Hidden', 'NoneGridObject')]
-COLOURED = ('Exit', 'Door', 'Key', 'Telepod', 'Beacon')
+TYPE_ORDER = [t for t in TYPES if t not in ('Hidden', 'NoneGridObject', 'VerifSubKey')]
+COLOURED = ('Exit', 'Door', 'Key', 'Telepod', 'Beacon', 'VerifSubKey')
 REPS = ['default', 'no-overlap', 'compact']
 SHIPPED_TYPE_SETS = [
     ('Wall', 'Floor', 'Exit'),
